@@ -171,3 +171,10 @@ Theorem c20_tdigest_exact_range_partial : forall msz bs s q v mn mx, reach msz b
   (mn <= v)%Q /\ (v <= mx)%Q.
 Proof. exact td_exact_quantile_in_range. Qed.
 Print Assumptions c20_tdigest_exact_range_partial.
+
+(** PARTIAL: over exact rationals the quantile is non-decreasing in q, for
+    every digest built by adds, flushes and merges. *)
+Theorem c20_tdigest_exact_monotone_partial : forall msz bs s q1 q2 v1 v2, reach msz bs s -> (q1 <= q2)%Q ->
+  snd (td_quantile QA msz s q1) = Some v1 -> snd (td_quantile QA msz s q2) = Some v2 -> (v1 <= v2)%Q.
+Proof. exact td_exact_quantile_monotone. Qed.
+Print Assumptions c20_tdigest_exact_monotone_partial.
